@@ -57,3 +57,37 @@ static inline int spec_simple_escape(uint8_t c) {
   }
 }
 #endif
+
+/* ---- whole string literal (contents after the opening quote), RFC 8259 section 7 ---- */
+#ifndef SPEC_STRING_DECODER
+#define SPEC_STRING_DECODER
+enum { SPEC_STR_OK = 0, SPEC_STR_REJECT = 1, SPEC_STR_NOQUOTE = 2 };
+/* s[0..n) is searched for the closing quote; s must have 12 more readable bytes after any
+ * backslash inside [0,n) (the oracle looks at a complete \uXXXX\uXXXX window like the RFC grammar).
+ * out receives the decoded bytes (at most n). */
+static inline int spec_decode_string(const uint8_t *s, size_t n, uint8_t *out, size_t *outlen, size_t *consumed) {
+  size_t i = 0, o = 0;
+  while (i < n) {
+    uint8_t c = s[i];
+    if (c == '"') { *outlen = o; *consumed = i + 1; return SPEC_STR_OK; }
+    if (c < 0x20) return SPEC_STR_REJECT;                      /* raw control byte */
+    if (c == '\\') {
+      uint8_t e = s[i + 1];
+      if (e == 'u') {
+        spec_uesc_t u = spec_unicode_escape(s + i);
+        if (!u.ok) return SPEC_STR_REJECT;                     /* non-hex, unpaired or misordered surrogate */
+        for (unsigned k = 0; k < u.n; k++) out[o++] = u.out[k];
+        i += u.adv;
+      } else {
+        int v = spec_simple_escape(e);
+        if (v < 0) return SPEC_STR_REJECT;                     /* unknown escape */
+        out[o++] = (uint8_t)v;
+        i += 2;
+      }
+    } else {
+      out[o++] = c; i++;
+    }
+  }
+  return SPEC_STR_NOQUOTE;
+}
+#endif
